@@ -326,6 +326,28 @@ func runC13(r *core.Run) {
 		r.AddEvals(n)
 		r.NTCount(n / 2)
 	}
+	// near-neutral colours: a multiple of the white with one component nudged by a few parts in 1e5
+	{
+		var n int64
+		for _, w := range ws {
+			for m := 1; m <= 40; m++ {
+				k := float32(m) / 32
+				for _, d := range []float32{1e-5, 3e-5, 1e-4, 3e-4, -2e-5, -1e-4} {
+					for axis := 0; axis < 3; axis++ {
+						in := [3]float32{w[0] * k, w[1] * k, w[2] * k}
+						in[axis] *= 1 + d
+						kind, msg, _, _ := c13XYZ(in, w)
+						n++
+						if kind != "" {
+							r.Violate("xyz", kind+"/near-neutral", msg, c13Case{Kind: kind, White: w, In: in})
+						}
+					}
+				}
+			}
+		}
+		r.AddEvals(n)
+		r.NTCount(n)
+	}
 	// the same colour against different whites back to back (a "last conversion" memo keyed on the
 	// colour alone shows only here)
 	{
